@@ -207,7 +207,8 @@ class LibMixin:
         ref = st.alloc(obj)
         init = load.find_method(cls.module, cls.name, "__init__")
         cnode = load.get_module(cls.module).classes.get(cls.name) if cls.module.startswith("liquid") else None
-        if init is None and cnode is not None and any(ast.unparse(d).split("(")[0].endswith("dataclass") for d in cnode.decorator_list):
+        is_nt = cnode is not None and any(ast.unparse(b) in ("NamedTuple", "typing.NamedTuple") for b in cnode.bases)
+        if init is None and cnode is not None and (is_nt or any(ast.unparse(d).split("(")[0].endswith("dataclass") for d in cnode.decorator_list)):
             names = [st_.target.id for st_ in cnode.body if isinstance(st_, ast.AnnAssign) and isinstance(st_.target, ast.Name)]
             vals = dict(zip(names, args))
             vals.update(kwargs)
@@ -310,8 +311,12 @@ class LibMixin:
         if any(d.endswith("contextmanager") for d in decos) and yield_hook is None:
             return [(st, ContextManagerCall(func, args, kwargs, self_val))]
         has_yield = any(isinstance(n, (ast.Yield, ast.YieldFrom)) for n in _walk_own(node))
+        collect = False
         if has_yield and yield_hook is None:
-            raise Unsupported(f"generator function {qual}")
+            if self.config is not None and getattr(self.config, "eager_generators", False):
+                collect = True  # generator run eagerly: its result is the list of yielded values
+            else:
+                raise Unsupported(f"generator function {qual}")
         for d in ([] if func.decorated else decos):
             base = d.split("(")[0]
             if base in ("staticmethod", "classmethod", "contextmanager", "property", "abstractmethod", "overload", "wraps",
@@ -340,11 +345,24 @@ class LibMixin:
             yield_hook = dict(yield_hook)
             yield_hook["id"] = hid
             st.ghost["__hooks__"] = st.ghost.get("__hooks__", ()) + (yield_hook,)
+        if collect:
+            st.ghost["__gen__"] = st.ghost.get("__gen__", ()) + ((),)
         self.depth += 1
         try:
             results = self.exec_block(node.body, st)
         finally:
             self.depth -= 1
+        if collect:
+            fixed = []
+            for s, o in results:
+                stack = s.ghost.get("__gen__", ((),))
+                items = list(stack[-1])
+                s.ghost["__gen__"] = stack[:-1]
+                if isinstance(o, Raised):
+                    fixed.append((s, o))
+                else:
+                    fixed.append((s, Ret(s.alloc(HList(items=items)))))
+            results = fixed
         out = []
         for s, o in results:
             s.locals = dict(saved)
@@ -396,10 +414,33 @@ class LibMixin:
                     out.append((s2, NONE))
         return out
 
+    def gen_emit(self, st, v):
+        stack = st.ghost.get("__gen__")
+        st.ghost["__gen__"] = stack[:-1] + (stack[-1] + (v,),)
+        return [(st, NONE)]
+
     def e_Yield(self, node, st):
+        if st.ghost.get("__gen__") and not st.ghost.get("__hooks__"):
+            if node.value is None:
+                return self.gen_emit(st, NONE)
+            return self.bind(self.ev(node.value, st), lambda s, v: self.gen_emit(s, v))
         if node.value is None:
             return self.run_yield_hook(st, None, NONE)
         return self.bind(self.ev(node.value, st), lambda s, v: self.run_yield_hook(s, None, v))
+
+    def e_YieldFrom(self, node, st):
+        if not st.ghost.get("__gen__"):
+            raise Unsupported("yield from outside an eager generator")
+
+        def f(s, v):
+            items = self.concrete_items(s, v)
+            if items is None:
+                raise Unsupported("yield from a symbolic iterable")
+            for x in items:
+                self.gen_emit(s, x)
+            return [(s, NONE)]
+
+        return self.bind(self.ev(node.value, st), f)
 
     # ---------------------------------------------------------------- attributes
 
